@@ -303,7 +303,14 @@ class Exec:
         arr = self.heap_get(st, key, z3.ArraySort(I, sort_of(ty)))
         t = z3.Select(arr, ref.t)
         t = z3.simplify(t)
-        return self.wf(st, from_term(ty, t))
+        v = self.wf(st, from_term(ty, t))
+        ff = self.reg.field_facts.get(attr)
+        if ff is not None and not getattr(self, 'no_facts', 0):
+            k = ('ff', attr, t.get_id())
+            if k not in st.facts_seen:
+                st.facts_seen.add(k)
+                st.fact(ff(v))
+        return v
 
     def write_field(self, st, ref, attr, ty, val):
         key = ('f', attr, tyname(ty))
@@ -374,10 +381,10 @@ class Exec:
         st.fact(f(new_dom) == f(dom) - z3.If(z3.Select(dom, to_term(k)), 1, 0), f(new_dom) >= 0)
         self.heap_set(st, kd, z3.Store(dd, d.t, new_dom))
 
-    def new_dict(self, st, k, v):
+    def new_dict(self, st, k, v, tag=None):
         r = st.alloc
         st.alloc = st.alloc + 1
-        d = VDict(r, k, v)
+        d = VDict(r, k, v, tag)
         kd, dd = self._dd(st, d)
         empty = z3.K(sort_of(k), False)
         st.fact(self.card_fn(d)(empty) == 0)
